@@ -29,6 +29,7 @@ ASSUMPTIONS = [
 T.ALPHABETS['c11amr'] = {'concepts': ['x'], 'roles': [':mod', ':mod-of', ':polarity~e.1', ':ARG0', ':poss-of'], 'atoms': ['-', 'k~e.1'], 'refs': 'all+aligned0'}
 T.ALPHABETS['c11mini'] = {'concepts': ['x'], 'roles': [':mod', ':accompanier-of~1', ':ARG0'], 'atoms': ['-'], 'refs': 'all'}
 T.ALPHABETS['c11t'] = {'concepts': ['x', 'ra'], 'roles': [':a', ':a-of~1', ':b'], 'atoms': ['k'], 'refs': 'all'}
+T.ALPHABETS['c11deep'] = {'concepts': ['x'], 'roles': [':mod', ':ARG0', ':polarity-of'], 'atoms': ['-'], 'refs': 'all'}
 T.ALPHABETS['c11nc'] = {'concepts': ['x', 'have-mod-91'], 'roles': [':ARG1', ':ARG2', ':ARG1-of', ':ARG2-of', ':ARG0'], 'atoms': ['-'], 'refs': 'all'}
 
 VARIANTS = [None, {'b': '_', 'c': '_2'}, {'a': '_2', 'b': '_'}]
@@ -38,9 +39,10 @@ def shards(tier, seed):
     out = []
     q = tier == 'quick'
     n, b = (3, 3) if q else (3, 4)
-    out += T.shard_list(n, b, 3, 'c11amr', pin=3, extra={'sub': 'inverse', 'model': 'AMR', 'bounds': f'TREE({n},{b},3) AMR roles / MINI roles / custom table x 3 variable-name variants x (decoded, marker-less)' + ('; plus a VERIF_SEED-chosen eighth of TREE(3,4,3) AMR' if q else '')})
+    out += T.shard_list(n, b, 3, 'c11amr', pin=3, extra={'sub': 'inverse', 'model': 'AMR', 'bounds': f'TREE({n},{b},3) AMR roles / MINI roles / custom table x 3 variable-name variants x (decoded, marker-less)' + ('; TREE(3,4,3) over a 3-role alphabet (relations that close two nested nodes); plus a VERIF_SEED-chosen eighth of TREE(3,4,3) AMR' if q else '')})
     out += T.shard_list(n, b, 3, 'c11mini', extra={'sub': 'inverse', 'model': 'MINI', 'bounds': ''})
     out += T.shard_list(n, b, 3, 'c11t', extra={'sub': 'inverse', 'model': 'TREIF1', 'bounds': ''})
+    out += T.shard_list(3, 4, 3, 'c11deep', pin=3, extra={'sub': 'inverse', 'model': 'AMR', 'bounds': ''})
     if q:
         blk = T.shard_list(3, 4, 3, 'c11amr', pin=3, extra={'sub': 'inverse', 'model': 'AMR', 'bounds': ''})
         out += blk[seed % 8::8]     # rotating eighth of the next bound (each shard exhaustive)
